@@ -271,9 +271,17 @@ class ApiProp(props.BaseProp):
                 "arithmetic); clustering / average_clustering with weighted = true: the guards only (missing: the numeric "
                 "body, cube roots are modelled on perfect cubes only); modularity: full without negative weight (missing: "
                 "total weight 0 with non-zero terms, where the code computes with inf); louvain_partitions / "
-                "louvain_communities RETURN Ok - no Panic site, no fuel exhaustion with level fuel > N and sweep fuel >= N^N, "
-                "never NoPartitions (Proofs/LouvainTotal.v) - under the hypotheses no negative / missing weight when weighted, "
-                "resolution >= 0 and a well-formed shuffle oracle of the model. "
+                "louvain_communities: the guard of F23 is in the model (first statement: weighted and a stored weight < 0 -> "
+                "InvalidArgument), C20_louvain_negative_weights_rejected proves that answer for EVERY graph state, fuel, "
+                "shuffle table, resolution and threshold; C20_total_louvain_partial - on every WF graph, when weighted every "
+                "edge has a weight, resolution >= 0, level fuel > N, sweep fuel >= N^N, well-formed shuffle oracle of the "
+                "model: EITHER some weight is negative and both functions return InvalidArgument OR the weights are "
+                "non-negative and both RETURN Ok (no Panic site, no fuel exhaustion, never NoPartitions, nested partitions; "
+                "Proofs/LouvainTotal.v) - non-negativity of the weights is no longer a hypothesis; "
+                "C20_louvain_invalid_argument_iff: on those inputs InvalidArgument iff weighted and a negative weight; "
+                "C20_total_louvain_nonnegative_weights is the previous round's statement, kept. Still missing: weighted = "
+                "true with an edge WITHOUT weight (no NaN arithmetic in the exact model: the guard lets NaN pass, as the "
+                "code does, then a model-domain site), negative resolution (returns in the evaluated example). "
                 "Beyond the theorems the check sweeps EVERY public function x 8 "
                 "graph kinds x 14 degenerate shapes x existing/absent names in debug and release builds under a watchdog "
                 "and applies the property's rules (no panic, no hang, error channel used for unsupported kinds and absent "
@@ -290,7 +298,9 @@ class ApiProp(props.BaseProp):
                 "F5/F19 (clustering subsets / absent names), F6 (transitivity underflow), F7 (multi-edge guards), F13 "
                 "(all_pairs absent target), F14 (eigenvector on multi-edge graphs), F15 (square_clustering underflow), "
                 "F18 (node_connected_component absent name), F22 (all_pairs / multi_source unwrapped the per-source "
-                "Err(ContradictoryPaths) on a graph with a negative weight).",
+                "Err(ContradictoryPaths) on a graph with a negative weight), F23 (weighted Louvain on a graph with a "
+                "negative weight did not return; now InvalidArgument - guard modelled, C20_louvain_negative_weights_rejected, "
+                "evaluated on F23's star in C20_louvain_negative_weights_example).",
         "technique": "Coq proof of Panic-site unreachability under WF + exhaustive API sweep (debug+release, watchdog)",
     }
 
